@@ -62,7 +62,7 @@ SpliceOf(kind, b) ==
     CASE kind = "none" -> [err |-> FALSE, bs |-> <<>>]
       [] kind \in {"empty_list", "empty_tuple"} -> [err |-> FALSE, bs |-> <<>>]
       [] kind = "same" -> [err |-> FALSE, bs |-> <<b>>]
-      [] kind = "other" -> [err |-> FALSE, bs |-> <<"x1">>]
+      [] kind \in {"other", "reused_list"} -> [err |-> FALSE, bs |-> <<"x1">>]   \* reused_list: one list object, refilled per call
       [] kind \in {"list2", "tuple2"} -> [err |-> FALSE, bs |-> <<"x1", "x2">>]
       [] kind = "list3" -> [err |-> FALSE, bs |-> <<"x1", b, "x2">>]
       [] kind \in {"generator", "int", "str", "list_with_nonblock", "dict_of_str", "object"} -> [err |-> TRUE, bs |-> <<>>]
